@@ -252,7 +252,9 @@ def g_mixed(rng):
             if r < 0.35:
                 last = ["%s:%d" % (k, b)]                       # equals the run's first value
             elif r < 0.6:
-                last = ["%s:%d" % (k, b - d if d else b + 1)]   # same type, another value
+                # same type, another value - and not the one the run would continue from (b - d): the
+                # printer must write the run's second value, "a b ... c" read with the step b - a is another run
+                last = ["%s:%d" % (k, b + rng.choice([3, 5, -4, 7]))]
             elif r < 0.8:
                 k2 = rng.choice([x for x in "ihcT" if x != k])
                 last = [g_scalar(rng, k2)]
@@ -265,8 +267,11 @@ def g_mixed(rng):
                     pre = g_run(rng, k0, rng.choice([1, 2, 5, 6]))
                     pre = [v for v in pre if v[0] == k0]
             arr = pre + last
-            hdr = ["a:%d:%d" % (ord(arr[-1][0]) if arr else 32, len(arr))]
-            out += hdr + arr + run
+            if arr and rng.random() < 0.35:
+                out += arr + run                 # the same at top level: the value before the run is no array element
+            else:
+                hdr = ["a:%d:%d" % (ord(arr[-1][0]) if arr else 32, len(arr))]
+                out += hdr + arr + run
         else:
             out.append(g_scalar(rng, rng.choice("ihcTNsf")))
     return [v for v in out if "2e2e2e" not in v]
